@@ -94,6 +94,7 @@ fn choose_tier_flags() -> [bool; 3] {
     unsafe {
         SYM_FLAGS = f;
     }
+    crate::common::stubs::native_tier(cpu_sym);
     f
 }
 
@@ -381,7 +382,7 @@ macro_rules! c14_bitops {
             targets: "entropy::bit_ops::BitOps::new (default config) / EntropyBitOps::new and the operations named by the instance function (bitops_count: popcount32/64, trailing_zeros32/64, reverse_bits32/64, bit_reverse_bmi2; bitops_bzhi_byte / bitops_bzhi_any: zero_high_bits32/64 with index <= 255 / any u32 index; bitops_pdep64: parallel_deposit64, pdep_u64; bitops_pext64: parallel_extract64, decode_rans_symbols_bmi2; bitops_pdep_pext32: parallel_deposit32, parallel_extract32, bit_interleaving_bmi2; bitops_select: select_bit64/32; bitops_entropy_reverse: EntropyBitOps::reverse_bits32). Tier = the get_cpu_features replacement of the instance: cpu_none -> software fallbacks; cpu_bmi2 -> hardware branches with SDM models of PDEP/PEXT/BZHI",
             bounds: "every u64/u32 operand, mask, index and k",
             oracle: "bit-loop definitions written in the harness (popcount, count trailing zeros, bit reversal, low-bit mask, SDM PDEP/PEXT; select: Some(r) iff k < popcount and then bit r set with exactly k ones below)",
-            body: { $f() }
+            body: { crate::common::stubs::native_tier($cpu); $f() }
         }
     };
 }
@@ -532,7 +533,7 @@ macro_rules! c14_bmi2a {
             targets: "succinct::rank_select::bmi2_acceleration (dispatch through Bmi2Capabilities::get -> SimdCapabilities::detect -> get_cpu_features): bmi2a_rank: Bmi2RankOps::{popcount_u64,popcount_trail,leading_zeros,trailing_zeros}, Bmi2BzhiOps::popcount_bzhi_enhanced, Bmi2BitOps::{reset_lowest_bit,isolate_lowest_bit,mask_up_to_lowest_bit}, Bmi2RangeOps::count_ones_range, Bmi2BextrOps::extract_bits_bextr; bmi2a_select1: Bmi2SelectOps::select1_u64; bmi2a_select0: select0_u64; bmi2a_select_variants: Bmi2SelectOps::select1_u64_enhanced, Bmi2AdvancedPatterns::pdep_ctz_select; bmi2a_pdep_byte / bmi2a_pdep_any: Bmi2BitOps::deposit_bits, Bmi2AdvancedPatterns::pdep_bzhi_composite with bit_limit <= 255 / any u32; bmi2a_pext: Bmi2BitOps::extract_bits. Tier = get_cpu_features replacement of the instance (cpu_none: fallbacks; cpu_bmi2: hardware branches with SDM models of PDEP/PEXT/BZHI/BEXTR)",
             bounds: "every u64 word/mask and every u32 index, start, length, k",
             oracle: "bit-loop definitions in the harness (popcount of the low n bits, leading/trailing zero count, lowest-set-bit identities, SDM PDEP/PEXT, select by its defining property)",
-            body: { $f() }
+            body: { crate::common::stubs::native_tier($cpu); $f() }
         }
     };
 }
@@ -679,7 +680,7 @@ macro_rules! c14_crc {
             targets: "io::simd_validation::checksum::{crc32c, crc32c_hash, crc32c_update, crc32c_finalize, detect_crc32c_impl}; tier = get_cpu_features replacement of the instance: cpu_none -> crc32c_scalar (256-entry table built by the real get_crc32c_table), cpu_bmi2 (has_sse42) -> crc32c_sse42 with SDM models of the CRC32 r32,r/m8/16/32/64 instruction",
             bounds: "every byte string of the concrete length N of the instance (last arg), every initial/running CRC value, every split point 0..=N",
             oracle: "bit-by-bit reflected Castagnoli CRC (poly 0x82F63B78) written in the harness; crc32c_hash == !crc(0xFFFFFFFF, data); update(update(init, a), b) == crc(init, a ++ b)",
-            body: { crc_case::<$n>() }
+            body: { crate::common::stubs::native_tier($cpu); crc_case::<$n>() }
         }
     };
 }
@@ -1401,7 +1402,7 @@ macro_rules! c14_memops_vec {
             targets: "memory::simd_ops::SimdMemOps::{compare, find_byte, copy_nonoverlapping, fill} through the vector kernels sse2_memcmp/sse2_memchr/sse2_memcpy_unaligned/sse2_memset (cpu_sse42) or avx2_* (cpu_avx2), vector main loop + scalar tail; the x86 vector intrinsics are executed through their stdarch bodies as far as Kani supports them",
             bounds: "args: tier record, LA, LB, OFF, TOT as in the short-slice family; lengths around one register width",
             oracle: "same as the short-slice family",
-            body: { memops_inner::<$la, $lb, $off, $tot>() }
+            body: { crate::common::stubs::native_tier($cpu); memops_inner::<$la, $lb, $off, $tot>() }
         }
     };
 }
@@ -1437,7 +1438,7 @@ macro_rules! c14_utf8_vec {
             targets: "io::simd_validation::utf8::Utf8Validator::validate_utf8 through validate_utf8_sse2 (cpu_sse41: loadu/set1/and/movemask ASCII fast path + scalar validation of the rest)",
             bounds: "every byte string of the concrete length N (one 16-byte register + tail)",
             oracle: "RFC 3629 scanner in the harness",
-            body: { utf8_fixed_tier::<$n>() }
+            body: { crate::common::stubs::native_tier($cpu); utf8_fixed_tier::<$n>() }
         }
     };
 }
@@ -1521,7 +1522,7 @@ macro_rules! c14_utf8x {
             targets: "string::bmi2_string_ops::Bmi2StringProcessor::{new, validate_utf8_bmi2, count_utf8_chars_bmi2, extract_utf8_chars_bmi2}; tier = get_cpu_features replacement (cpu_none: std fallbacks; cpu_bmi2: *_bmi2_impl incl. decode_utf8_char_bmi2 and count_utf8_continuation_bytes_bmi2 with the SDM model of BEXTR)",
             bounds: "the 8-byte text 'abc' b3 b4 'def' for every pair of bytes b3, b4 (8 bytes is the shortest input that takes the BMI2 path)",
             oracle: "RFC 3629 scanner/decoder in the harness: validate == well-formed; count/extract are Ok(number of characters / the code points) iff well-formed",
-            body: { utf8x_case() }
+            body: { crate::common::stubs::native_tier($cpu); utf8x_case() }
         }
     };
 }
